@@ -810,6 +810,26 @@ func c08AllocBound(c *Ctx) {
 		})
 	}
 	c.ok(rule, "population", "-", fmt.Sprintf("%d non-constant allocation sizes in network-reachable code inspected", n))
+	// what a table keyed by message content holds must be able to leave it: the client transport table gets an entry (and
+	// for udp a socket of its own) for every distinct destination a Route or Via names; the sweep removes the entries whose
+	// IsExpired() answers true, so an implementation that answers the constant false is never removed
+	nExp := 0
+	for _, fn := range w.All {
+		if !w.isMain(fn) || fn.Blocks == nil || fn.Name() != "IsExpired" || fn.Signature.Recv() == nil {
+			continue
+		}
+		nExp++
+		always := true
+		for _, r := range returnsUnder(fn, nil) {
+			for _, leaf := range phiLeaves(r.Results[0]) {
+				if b, ok := constBool(leaf); !ok || b {
+					always = false
+				}
+			}
+		}
+		c.check(!always, rule, w.fname(fn)+"/never-expires", w.pos(fn.Pos()), "entries of this kind can expire", "IsExpired() of this client transport is the constant false: the table entry (and the socket behind it) created for every distinct destination that a message names is never removed - N small messages naming N destinations leave N sockets and N entries for the life of the process")
+	}
+	c.check(nExp >= 2, rule, "client-transports/expiry-census", "-", "expiry predicates found", fmt.Sprintf("only %d IsExpired implementations found", nExp))
 	// positive control for the taint engine
 	if fv := w.field("Header", "value"); fv != nil {
 		found := false
